@@ -819,8 +819,16 @@ func TestVerif_C29_Payload(t *testing.T) {
 		// class keys name the RPC and the place the object data came from; body variant and
 		// filter kind are reported in the text
 		key := c.RPC + "|" + c.Location
-		if c.RPC == "GetRange" {
+		switch c.RPC {
+		case "GetRange":
 			key = c.RPC // the shape of the failure does not depend on where the payload lives
+		case "Get":
+			// whole-object and ranged reads take different routes through the get service
+			if strings.Contains(c.Variant, "range") {
+				key += "|ranged"
+			} else {
+				key += "|whole"
+			}
 		}
 		// O on the allowed twin
 		if ctl.FirstEval < 0 || ctl.FirstEval > ctl.FirstData {
